@@ -2,3 +2,11 @@ import DnsVerif.Props.C16
 #print axioms DnsVerif.Props.C16.probe_find_all
 #print axioms DnsVerif.Props.C16.buildTable_has_free
 #print axioms DnsVerif.Props.C16.makeParse_dumpText
+#print axioms DnsVerif.Props.C16.writeFile_size
+#print axioms DnsVerif.Props.C16.find_written
+#print axioms DnsVerif.Props.C16.find_written_hashfn
+#print axioms DnsVerif.Props.C16.find_absent
+#print axioms DnsVerif.Props.C16.find_in_order
+#print axioms DnsVerif.Props.C16.find_no_leak
+#print axioms DnsVerif.Props.C16.findNext_iterates
+#print axioms DnsVerif.Props.C16.find_first
